@@ -793,6 +793,10 @@ func (x *Exec) specCall(e *ast.CallExpr, sc *SpecScope, st *State) *Value {
 		}
 		et := types.Unalias(v.T).Underlying().(*types.Slice).Elem()
 		return &Value{Tm: x.sliceContents(st, v.Tm, x.sortOf(et), et)}
+	case "refheap":
+		// refheap(): the whole heap of backing arrays of slices of references (pointers/interfaces)
+		k, ks := x.elemKey(IntS, types.NewPointer(types.Typ[types.Int]))
+		return &Value{Tm: st.hget(k, ks)}
 	case "byteheap":
 		// byteheap(): the whole heap of byte-slice backing arrays (array reference -> contents)
 		bt := types.Typ[types.Uint8]
